@@ -28,6 +28,7 @@ type CLIRun struct {
 	TmpDir    string
 	Timeout   time.Duration
 	StdoutTo  string // "" = capture; path = open that path for writing (e.g. /dev/full)
+	StdoutFile *os.File // if set, the child writes its stdout there
 }
 
 type CLIRes struct {
@@ -55,7 +56,9 @@ func runCLI(r CLIRun) (CLIRes, error) {
 			f.Close()
 		}
 	}()
-	if r.StdoutTo != "" {
+	if r.StdoutFile != nil {
+		cmd.Stdout = r.StdoutFile
+	} else if r.StdoutTo != "" {
 		f, err := os.OpenFile(r.StdoutTo, os.O_WRONLY, 0)
 		if err != nil {
 			return res, err
